@@ -383,7 +383,7 @@ Proof.
 Qed.
 
 (** ** format_bar for a finite fraction in [0,1] and at most 2^24 cells *)
-Definition W24 : N := 16777216.
+(* [W24] (= 2^24) and [len_wf] are statement vocabulary: defined in model/BarGeom.v *)
 
 Lemma NR_W24 w : (w <= W24)%N -> NR w <= bpow radix2 24.
 Proof. intros H. change (bpow radix2 24) with (IZR (2 ^ 24)). apply IZR_le. unfold W24 in H. change (2 ^ 24)%Z with 16777216%Z. lia. Qed.
@@ -542,7 +542,6 @@ Proof.
 Qed.
 
 (** ** Layer 3: geometry of [format_bar (fraction pos len) width c nchars] *)
-Definition len_wf (len : option N) : Prop := match len with Some l => (l < U64)%N | None => True end.
 
 Lemma div_le_W24 width c : (width <= W24)%N -> (width / c <= W24)%N.
 Proof.
